@@ -14,6 +14,7 @@ pub mod cfi;
 pub mod info;
 pub mod line;
 pub mod lists;
+pub mod op;
 pub mod small;
 
 pub fn endian_of(case: &Case) -> RunTimeEndian {
@@ -161,6 +162,7 @@ pub fn drive_family<'a, R: Reader<Offset = usize> + 'a>(
         "lists" => lists::lists(mk, case, ctx),
         "info" => info::info(mk, case, ctx),
         "cfi" => cfi::cfi(mk, case, ctx),
+        "op" => op::ops(mk, case, ctx),
         other => panic!("unknown family {}", other),
     }
 }
